@@ -113,7 +113,7 @@ func (c *commonStore) compressedCopy(ctx context.Context, destination io.Writer,
 			return err
 		}
 	case "zstd":
-		zstdEncoder, err := zstd.NewWriter(destination, zstd.WithEncoderConcurrency(1), zstd.WithLowerEncoderMem(true), zstd.WithWindowSize(1<<16)) // verif overlay: same frame format, no per-write allocation of 16 encoders
+		zstdEncoder, err := zstd.NewWriter(destination, zstd.WithEncoderConcurrency(1), zstd.WithLowerEncoderMem(true), zstd.WithWindowSize(1<<16), zstd.WithEncoderLevel(zstd.SpeedFastest)) // verif overlay: same frame format, no per-write allocation of 16 encoders
 		if err != nil {
 			return err
 		}
@@ -168,7 +168,8 @@ func (c *commonStore) uncompressedReader(ctx context.Context, reader io.ReadClos
 		if c.uncompressedReadCallback != nil {
 			out = &callbackReadCloser{rc: zstdReader.IOReadCloser(), callback: c.uncompressedReadCallback, ctx: ctx}
 		} else {
-			out = zstdReader.IOReadCloser()
+			// verif overlay: also close the underlying file (the original leaves it to the finalizer)
+			out = wrapReadCloser(zstdReader.IOReadCloser(), func() { reader.Close() })
 		}
 	default:
 		if c.uncompressedReadCallback != nil {
